@@ -42,6 +42,7 @@ class PState:
         self.events = []    # ('store', path), ('call', name, ...)
         self.types = {}     # atom -> (lo, hi)
         self.neq = []       # Lin d with d != 0 known (disjunction d <= -1 or d >= 1)
+        self._ret = None
 
     def copy(self):
         s = PState()
@@ -55,6 +56,7 @@ class PState:
         s.events = list(self.events)
         s.types = dict(self.types)
         s.neq = list(self.neq)
+        s._ret = None
         return s
 
 
@@ -395,8 +397,12 @@ class Walker:
         signed_pred = pred
         if pred[0] == "u":
             if self.view != "unsigned":
-                # usable when both sides are known non-negative
-                if not (self.entails(st, a.scale(-1)) and self.entails(st, b.scale(-1))):
+                if pred in ("ult", "ule") and b.is_const() and b.k >= 0:
+                    # x <u C with 0 <= C < 2^(n-1)  =>  0 <= x (signed view) and x < C
+                    st.facts.append(a.scale(-1))
+                elif pred in ("ugt", "uge") and a.is_const() and a.k >= 0:
+                    st.facts.append(b.scale(-1))
+                elif not (self.entails(st, a.scale(-1)) and self.entails(st, b.scale(-1))):
                     return True
             signed_pred = "s" + pred[1:]
         elif pred[0] == "s" and self.view == "unsigned":
@@ -442,7 +448,11 @@ class Walker:
                 if effect(self, s2, args, i) is False:
                     continue
                 if i.res is not None:
-                    s2.env[i.res] = const(retval) if retval is not None else self.fresh(s2, "%" + i.res, i.type)
+                    if getattr(s2, "_ret", None) is not None:
+                        s2.env[i.res] = s2._ret
+                        s2._ret = None
+                    else:
+                        s2.env[i.res] = const(retval) if retval is not None else self.fresh(s2, "%" + i.res, i.type)
                 if self.feasible(s2):
                     outs.append(("cont", s2))
             # continue the block after the call in each outcome: emulate by re-entering the block tail
